@@ -202,13 +202,13 @@ Proof.
     replace ((Zlength p =? 0) || (Zlength p >? C19_PATH_MAX - 1) || negb true) with false; [reflexivity|].
     symmetry. apply orb_false_iff. split; [apply orb_false_iff; split|reflexivity].
     - apply Z.eqb_neq. lia.
-    - apply Z.gtb_ltb. apply Z.ltb_ge. lia. }
+    - rewrite Z.gtb_ltb. apply Z.ltb_ge. lia. }
   rewrite P. rewrite run_args_keeps_root; auto. simpl. apply init_initted.
 Qed.
 
 (* non-vacuity: unusable home directory, -disablefiletransfer followed by a valid -ftproot *)
 Example tight_args_nonvacuous :
-  let env := {| pw_home := Some [47; 120]; dir_ok := fun p => list_eqb p [47; 114] |} in
+  let env := {| pw_home := Some [47; 120]; dir_ok := fun p => list_eqb (strip_slash p) [47; 114] |} in
   run_args env tinit0 [s_disable; s_ftproot; [47; 114]] = {| t_initted := true; t_enabled := false; t_root := [47; 114] |} /\
   run_args env tinit0 [s_ftproot; [47; 114; 47]; [45; 120]] = {| t_initted := true; t_enabled := true; t_root := [47; 114] |}.
 Proof. vm_compute. auto. Qed.
